@@ -30,7 +30,7 @@ LEVELS = {
           '(C18_init_wf, repeated addresses included - after the fix commit 669b1db) and preserved by every successful message of every sender in both wrappers '
           '(C18_core_step via C18_bsei_step / C18_stsei_step); the same theorem fixes who can change the supply (Mint: minter only; Burn: hub on its own balance; '
           'BurnFrom: within an unexpired allowance), that *From operations never exceed the allowance and lower it by exactly the amount, and that the minter only '
-          'changes through UpdateMinter by the minter; C18_burn_refreshes_rates: stSei Burn/BurnFrom and bSei BurnFrom emit CheckSlashing to the hub. '
+          'changes through UpdateMinter by the minter; C18_burn_refreshes_rates: stSei Burn/BurnFrom and bSei BurnFrom emit CheckSlashing to the hub. C18_reachable: both ledgers satisfy WF in every reachable state of the composed system (any history, any senders, hub-driven mints and burns included). '
           'Tied to the Rust by differential token histories (both flavours, expirations at the boundary height/second) and the sum/authority oracle on every step.',
   'note': 'Trusted: Lean kernel; hand-written model of cw20-legacy, of the cw20-base 0.16 behaviours stSei relies on, and of the two wrappers; holders outside the fixed cast are not observed by the harness (the theorem covers all addresses). '
           'That the hub never sends UpdateMinter is by inspection of the hub model (it emits only Mint and Burn to the tokens).',
@@ -94,7 +94,7 @@ LEVELS = {
  'C20': {
   'text': 'C20_hub_init_range / C20_hub_step_range: peg_recovery_fee <= 1 and er_threshold <= 1 from every instantiate and after every successful hub message of every sender, and no message other than UpdateParams touches a parameter; '
           'C20_update_params_fields / C20_hub_update_config_fields / C20_dispatcher_fields: each update applies exactly the fields present (omitted => unchanged; the pause flag is set to what the message says), the keeper rate is rejected above 1, the stSei reward denom never changes under any dispatcher message; '
-          'the underlying coin denom has no update path (constant in the model, compared in every observation); C20_rejected_changes_nothing. Exhaustive option matrix on the real contracts.',
+          'the underlying coin denom has no update path (constant in the model, compared in every observation); C20_rejected_changes_nothing. C20_reachable: fee, threshold and keeper rate are at most 1 in every reachable state of the composed system. Exhaustive option matrix on the real contracts.',
   'note': 'Trusted: Lean kernel; hub/dispatcher models. Reward and registry UpdateConfig are covered by the matrix and the differential check, not by a separate theorem.',
   'technique': 'Lean 4 invariants + field-wise frame theorems; exhaustive optional-field matrix on the implementation',
  },
@@ -102,9 +102,11 @@ LEVELS = {
   'text': 'C16_token_emits_exact_mirror: for each of the nine bSei messages the Increase/Decrease messages emitted to the reward contract have, for every address, a net effect equal to that address\'s ledger change (and net total = supply change); '
           'C16_reward_applies: the reward contract applies a mirror message from the registered token exactly; C16_queue_step_token / C16_queue_step_reward: the invariant "token balance + pending decreases = mirrored balance + pending increases" (all addresses, and totals) '
           'is preserved when the head of the CosmWasm message queue is executed; C16_drained: with an empty queue the two ledgers agree; C16_init: they agree at instantiation without initial balances. '
-          'PARTIAL: the lift over the whole system executor (that no other contract\'s handler touches the two ledgers or forges mirror messages, i.e. the frame for hub/dispatcher/registry/stSei steps and the E3 configuration staying in force) is not proved; it is covered by the differential check and the mirror oracle after every operation, hub-driven burns and mints included.',
-  'note': 'Trusted: Lean kernel; token and reward models; A-CHAIN-1 (depth-first message order, atomicity); E3 (dispatcher.bsei_reward_contract = reward, hub registered). The frame over other contracts is by construction of Sys.handle (it rebuilds only the addressed contract) but not stated as a theorem.',
-  'technique': 'Lean 4 queue invariant (token o reward composition); mirror oracle on every implementation step',
+          'C16_reachable (every reachable state of the composed system): from any state in which the six contracts are wired to each other, owners/nominees are outside accounts and the two ledgers agree (the corpus genesis: examples in the file), '
+          'after every history of any length whose top-level messages come from outside accounts other than those owners/nominees (E3), with any environment events interleaved, every holder\'s mirrored balance equals its bSei balance and the mirrored total equals the supply. '
+          'The proof runs the queue invariant through the real message executor (run_inv2), using that every message a contract emits carries that contract as sender (handle_sentBy, per-contract SentBy lemmas) and that configuration messages are accepted from owners/nominees only.',
+  'note': 'Trusted: Lean kernel; the six contract models and the executor Sys.run (A-CHAIN-1: depth-first message order, atomicity); E3 as stated in the theorem\'s hypotheses (Wired, QuietStep).',
+  'technique': 'Lean 4 reachable-state theorem over the composed system (queue invariant through the message executor); mirror oracle on every implementation step',
  },
  'C02': {
   'text': 'C02_bond_delegated_in_full: the Delegate messages of Bond/BondForStSei/BondRewards sum to exactly the payment, go only to validators the registry returned and are never empty (uses the C12 conservation theorem); C02_books_le_delegated: after every slashing check booked <= delegated; '
@@ -117,9 +119,10 @@ LEVELS = {
   'text': 'Invariant ClaimInv proved in Lean: for the open batch the sum over all users of recorded claims equals CurrentBatch.requested (per token); for every closed unreleased batch it equals the history amounts; for released batches it only falls; nothing is recorded for future batches. '
           'Base C07_init; steps: C07_unbond_bsei_credits_sender_only / C07_unbond_stsei_credits_sender_only (the cw20 sender, and only that (user,batch) entry, is credited amount less fee; the same amount joins the batch total), C07_undelegation_keeps_claims (history stores exactly the totals), '
           'C07_release_keeps_claims, C07_withdraw_removes_only_own_released / C07_withdraw_step (only the caller\'s entries on released batches disappear; nobody else\'s claim changes). Receive hooks from unregistered tokens are rejected (C10_hub). '
-          'On the implementation: per-batch sums of UnbondRequests vs CurrentBatch/AllHistory, credit and burn amounts, foreign-claim immutability after every step.',
-  'note': 'Trusted: Lean kernel; hub model (wait list as total maps + ghost key list); the other hub handlers do not touch the claim fields (SameClaims) - true by the handler characterisations, assembled for bond/convert/check in the model but not as one theorem over hubExec; legacy (pre-v2) entries are outside the invariant.',
-  'technique': 'Lean 4 invariant over the unbond state machine (sums over per-batch key lists); claim-sum oracle on every implementation step',
+          'On the implementation: per-batch sums of UnbondRequests vs CurrentBatch/AllHistory, credit and burn amounts, foreign-claim immutability after every step. '
+          'C07_hub_step: every accepted hub message of every sender preserves ClaimInv; C07_reachable: ClaimInv holds in every reachable state of the composed system (any history of any length, any senders, environment events interleaved), given no pre-migration entries are injected. ',
+  'note': 'Trusted: Lean kernel; hub model (wait list as total maps + ghost key list) and the executor Sys.run; legacy (pre-v2) entries are outside the invariant (hypothesis of C07_reachable).',
+  'technique': 'Lean 4 reachable-state invariant of the composed system (sums over per-batch key lists); claim-sum oracle on every implementation step',
  },
  'C08': {
   'text': 'C08_undelegation_only_after_epoch: an unbond (either token) undelegates only when now - last_unbonded_time > epoch_period, otherwise the history is untouched; the new entry carries the current time; C08_consecutive_written_once: the slot written is the open batch id, provably empty before, and the next id opens (uses the C07 invariant); '
